@@ -153,6 +153,18 @@ func (w *World) loopInfo(fn *ssa.Function) *LoopInfo {
 }
 
 func (w *World) noteInlined(k string) { w.mu.Lock(); w.inlined[k] = true; w.mu.Unlock() }
+// externKey resolves an extern declaration for a call made while verifying a function of package
+// scope (package-local declaration first, then the global ones).
+func (w *World) externKey(scope, name string) (string, bool) {
+	if _, ok := w.externFrames[scope+"|"+name]; ok {
+		return scope + "|" + name, true
+	}
+	if _, ok := w.externFrames["|"+name]; ok {
+		return "|" + name, true
+	}
+	return "", false
+}
+
 func (w *World) noteAssumed(k string) { w.mu.Lock(); w.assumedSet[k] = true; w.mu.Unlock() }
 func (w *World) noteContractUse(c *Contract) {
 	w.mu.Lock()
